@@ -165,6 +165,75 @@ func ips(ss ...string) []net.IP {
 	return out
 }
 
+// nameConstraint puts a permitted or excluded subtree of one name type on a CA of the
+// base chain and gives the leaf names of that type inside and/or outside of it.
+func nameConstraint(t *topo, r *mon.Rand, kind int) {
+	ca := t.certs[t.chain[t.pickCA(r)]]
+	leaf := t.leaf()
+	excl := r.Bool()
+	var cons, names []string
+	hostOnly := func(cs []string) bool { // a host constraint without leading period is present
+		for _, c := range cs {
+			if c == "example.com" {
+				return true
+			}
+		}
+		return false
+	}
+	switch kind {
+	case 0:
+		cons = subset(r, []string{"example.com", ".example.com", "corp.example.com"}, r.Range(1, 2))
+		names = subset(r, []string{"www.example.com", "example.com", "a.corp.example.com", "www.example.org", "corp.example.com", "EXAMPLE.COM"}, r.Range(1, 2))
+		leaf.dns = names
+		if excl {
+			ca.xDNS = cons
+		} else {
+			ca.pDNS = cons
+		}
+	case 1:
+		cons = subset(r, []string{"10.0.0.0/8", "192.168.0.0/16", "2001:db8::/32"}, r.Range(1, 2))
+		names = subset(r, []string{"10.1.2.3", "192.168.5.5", "8.8.8.8", "2001:db8::1", "2001:db9::1"}, r.Range(1, 2))
+		leaf.ips = ips(names...)
+		if excl {
+			ca.xIP = cidrs(cons)
+		} else {
+			ca.pIP = cidrs(cons)
+		}
+	case 2:
+		cons = subset(r, []string{"user@example.com", "example.com", ".example.com"}, r.Range(1, 2))
+		pool := []string{"user@example.com", "other@example.com", "user@example.org", "USER@example.com", "user@mail.example.com"}
+		if hostOnly(cons) && r.Intn(4) > 0 {
+			pool = pool[:4] // keep clear of the sub-domain-of-a-host reading on which Verify and RFC 5280 differ
+		}
+		names = subset(r, pool, r.Range(1, 2))
+		leaf.emails = names
+		if excl {
+			ca.xMail = cons
+		} else {
+			ca.pMail = cons
+		}
+	case 3:
+		cons = subset(r, []string{"example.com", ".example.com"}, r.Range(1, 2))
+		pool := []string{"https://example.com/x", "https://example.org/", "spiffe://EXAMPLE.com/ns", "https://example.net:8443/z", "https://api.example.com:8443/y"}
+		if hostOnly(cons) && r.Intn(4) > 0 {
+			pool = pool[:4]
+		}
+		names = subset(r, pool, r.Range(1, 2))
+		leaf.uris = names
+		if excl {
+			ca.xURI = cons
+		} else {
+			ca.pURI = cons
+		}
+	}
+	// sometimes an intermediate below the constrained CA claims a name as well
+	if len(t.chain) > 2 && r.Intn(3) == 0 {
+		mid := t.certs[t.chain[r.Range(1, len(t.chain)-2)]]
+		mid.dns = append(mid.dns, pick(r, []string{"ca.example.com", "ca.example.org"}))
+	}
+	t.notes = append(t.notes, fmt.Sprintf("%s constraint kind=%d excluded=%v %q vs leaf %q", ca.name, kind, excl, cons, names))
+}
+
 type mutator struct {
 	name string
 	f    func(t *topo, r *mon.Rand)
@@ -206,57 +275,8 @@ var mutators = []mutator{
 			t.notes = append(t.notes, fmt.Sprintf("%s pathLen=%d", s.name, s.maxPath))
 		}
 	}},
-	{"name-constraint", func(t *topo, r *mon.Rand) {
-		ca := t.certs[t.chain[t.pickCA(r)]]
-		leaf := t.leaf()
-		excl := r.Bool()
-		var cons, names []string
-		kind := r.Intn(4)
-		switch kind {
-		case 0:
-			cons = subset(r, []string{"example.com", ".example.com", "corp.example.com"}, r.Range(1, 2))
-			names = subset(r, []string{"www.example.com", "example.com", "a.corp.example.com", "www.example.org", "corp.example.com", "EXAMPLE.COM"}, r.Range(1, 2))
-			leaf.dns = names
-			if excl {
-				ca.xDNS = cons
-			} else {
-				ca.pDNS = cons
-			}
-		case 1:
-			cons = subset(r, []string{"10.0.0.0/8", "192.168.0.0/16", "2001:db8::/32"}, r.Range(1, 2))
-			names = subset(r, []string{"10.1.2.3", "192.168.5.5", "8.8.8.8", "2001:db8::1", "2001:db9::1"}, r.Range(1, 2))
-			leaf.ips = ips(names...)
-			if excl {
-				ca.xIP = cidrs(cons)
-			} else {
-				ca.pIP = cidrs(cons)
-			}
-		case 2:
-			cons = subset(r, []string{"user@example.com", "example.com", ".example.com"}, r.Range(1, 2))
-			names = subset(r, []string{"user@example.com", "other@example.com", "user@mail.example.com", "user@example.org", "USER@example.com"}, r.Range(1, 2))
-			leaf.emails = names
-			if excl {
-				ca.xMail = cons
-			} else {
-				ca.pMail = cons
-			}
-		case 3:
-			cons = subset(r, []string{"example.com", ".example.com"}, r.Range(1, 2))
-			names = subset(r, []string{"https://example.com/x", "https://api.example.com:8443/y", "https://example.org/", "spiffe://EXAMPLE.com/ns"}, r.Range(1, 2))
-			leaf.uris = names
-			if excl {
-				ca.xURI = cons
-			} else {
-				ca.pURI = cons
-			}
-		}
-		// sometimes an intermediate below the constrained CA claims a name as well
-		if len(t.chain) > 2 && r.Intn(3) == 0 {
-			mid := t.certs[t.chain[r.Range(1, len(t.chain)-2)]]
-			mid.dns = append(mid.dns, pick(r, []string{"ca.example.com", "ca.example.org"}))
-		}
-		t.notes = append(t.notes, fmt.Sprintf("%s constraint kind=%d excluded=%v %q vs leaf %q", ca.name, kind, excl, cons, names))
-	}},
+	{"name-constraint-dns-ip", func(t *topo, r *mon.Rand) { nameConstraint(t, r, r.Intn(2)) }},
+	{"name-constraint-mail-uri", func(t *topo, r *mon.Rand) { nameConstraint(t, r, 2+r.Intn(2)) }},
 	{"same-name-other-key-root", func(t *topo, r *mon.Rand) {
 		root := t.root()
 		fake := caSpec(r, root.name, t.newKey(), -1)
@@ -407,11 +427,15 @@ var mutators = []mutator{
 	}},
 }
 
+// mixSlots: the recipe cycle has len(mutators)+mixSlots = 29 entries (a prime, so that
+// every shard count sees every recipe); the extra slots mix two or three recipes.
+const mixSlots = 8
+
 func genTopo(r *mon.Rand, i int) *topo {
 	d := r.Intn(4)
 	t := base(r, d)
-	// recipes cycle; every fourth topology mixes two or three of them
-	m := i % (len(mutators) + 6)
+	// recipes cycle with the topology number; the last mixSlots entries mix two or three of them
+	m := i % (len(mutators) + mixSlots)
 	if m < len(mutators) {
 		t.recipe = mutators[m].name
 		mutators[m].f(t, r)
@@ -948,7 +972,7 @@ func chains(x *mon.Ctx) {
 }
 
 func recipeName(i int) string {
-	m := i % (len(mutators) + 6)
+	m := i % (len(mutators) + mixSlots)
 	if m < len(mutators) {
 		return mutators[m].name
 	}
